@@ -315,6 +315,9 @@ func (g *jsGen) literal() string {
 }
 
 func (g *jsGen) arrayLit() string {
+	if g.inObjMethod > 0 {
+		return g.r.Pick([]string{"[]", "[1,2]", "[\"a\"]", "[[3]]"}) // guard js-objmethod-nested-object: no identifiers inside array/object literals in object-literal methods
+	}
 	n := g.r.Intn(4)
 	var parts []string
 	for i := 0; i < n; i++ {
@@ -335,6 +338,9 @@ func (g *jsGen) arrayLit() string {
 }
 
 func (g *jsGen) arrayish() string {
+	if g.inObjMethod > 0 {
+		return g.r.Pick([]string{"[1,2]", "[]", "\"ab\"", "[3,[4]]"})
+	}
 	return g.r.Pick([]string{"[1,2]", "[]", "\"ab\"", "[" + g.someVar(false) + "]", "[3,[4]]"})
 }
 
@@ -588,7 +594,7 @@ func (g *jsGen) params(declare bool) string {
 	var parts []string
 	first := ""
 	for i := 0; i < n; i++ {
-		def := g.literal() // generated before the parameter is declared: a default may not refer to its own or a later parameter (TDZ)
+		def := g.r.Pick([]string{g.number(), g.str(), "null", "true", "[]", "{}", "[1,2]", "{a:1}"}) // constants only: guard js-param-default-shadowed-by-body-var (and no TDZ self reference)
 		p := g.declare("param")
 		if i == 0 {
 			first = p
@@ -712,6 +718,16 @@ func (g *jsGen) body() string {
 	}
 }
 
+// elseBody: guard js-else-lexical-unwrapped — after a body that ends in a flow statement the else part declares nothing lexical
+func (g *jsGen) elseBody(first string) string {
+	for _, kw := range []string{"return", "throw", "break", "continue"} {
+		if strings.Contains(first, kw) {
+			return g.exprStmt()
+		}
+	}
+	return g.body()
+}
+
 func (g *jsGen) simpleStmt() string {
 	r := g.r
 	switch r.Intn(8) {
@@ -785,9 +801,11 @@ func (g *jsGen) stmt() string {
 		case 0:
 			return "if(" + c + ")" + g.body()
 		case 1:
-			return "if(" + c + ")" + g.body() + "else " + g.body()
+			b1 := g.body()
+			return "if(" + c + ")" + b1 + "else " + g.elseBody(b1)
 		case 2:
-			return "if(!(" + c + "))" + g.body() + "else " + g.body()
+			b1 := g.body()
+			return "if(!(" + c + "))" + b1 + "else " + g.elseBody(b1)
 		case 3:
 			return "if(" + c + "){}else " + g.body()
 		case 4:
